@@ -226,6 +226,9 @@ func (w *World) refreshShadow(n *node, post *raft.VerifState, in *pb.Message, ki
 				w.violate("C03", []string{"C18", "C01", "C20"}, "I2: node %d entry %d changed (term %d %q)->(term %d %q) in %s", n.id, idx, old.Term, trunc(old.Data), e.Term, trunc(e.Data), kind)
 			} else {
 				w.Stats["entries-overwritten"]++
+				if idx >= n.st.UnstableOffset && idx < n.st.OffsetInProgress {
+					w.Stats["entries-overwritten-while-being-persisted"]++
+				}
 				if idx <= n.st.Commit {
 					w.violate("C01", []string{"C04", "C03", "C06"}, "node %d: committed entry %d (commit %d) replaced on %s", n.id, idx, n.st.Commit, in.GetType())
 				}
